@@ -285,6 +285,81 @@ impl<'tcx> Ex<'tcx> {
         o(v)
     }
 
+    /// Decode the bytes of a constant allocation as a value of type `t`: integers, field-less enums, tuples and arrays of
+    /// those (a private lookup table such as `[(i32, ShapeType); 14]`).  None for anything else.
+    fn decode_const(
+        &self,
+        tenv: TypingEnv<'tcx>,
+        bytes: &[u8],
+        ofs: usize,
+        t: Ty<'tcx>,
+        depth: usize,
+    ) -> Option<J> {
+        let tcx = self.tcx;
+        if depth > 4 {
+            return None;
+        }
+        let layout = tcx.layout_of(tenv.as_query_input(t)).ok()?;
+        let sz = layout.size.bytes() as usize;
+        if ofs + sz > bytes.len() {
+            return None;
+        }
+        let read = |o: usize, n: usize| -> u128 {
+            let mut val: u128 = 0;
+            for i in 0..n.min(16) {
+                val |= (bytes[o + i] as u128) << (8 * i);
+            }
+            val
+        };
+        match t.kind() {
+            ty::Int(_) => {
+                let size = rustc_abi::Size::from_bytes(sz as u64);
+                Some(o(vec![("int", s(format!("{}", size.sign_extend(read(ofs, sz)) as i128)))]))
+            }
+            ty::Uint(_) => Some(o(vec![("int", s(format!("{}", read(ofs, sz))))])),
+            ty::Bool => Some(o(vec![("bool", J::B(read(ofs, sz) != 0))])),
+            ty::Adt(def, _) if def.is_enum() && def.variants().iter().all(|x| x.fields.is_empty()) => {
+                let val = read(ofs, sz);
+                let mask: u128 = if sz >= 16 { u128::MAX } else { (1u128 << (8 * sz)) - 1 };
+                for (vi, d) in def.discriminants(tcx) {
+                    if d.val & mask == val {
+                        return Some(o(vec![(
+                            "enum",
+                            o(vec![
+                                ("adt", s(tcx.def_path_str(def.did()))),
+                                ("variant", s(def.variant(vi).name.as_str())),
+                                ("vi", n(vi.index())),
+                            ]),
+                        )]));
+                    }
+                }
+                None
+            }
+            ty::Tuple(tys) => {
+                let mut items = Vec::new();
+                for (i, ft) in tys.iter().enumerate() {
+                    let fo = layout.fields.offset(i).bytes() as usize;
+                    items.push(self.decode_const(tenv, bytes, ofs + fo, ft, depth + 1)?);
+                }
+                Some(o(vec![("tuple", J::A(items))]))
+            }
+            ty::Array(et, len) => {
+                let cnt = len.try_to_target_usize(tcx)? as usize;
+                if cnt > 4096 {
+                    return None;
+                }
+                let el = tcx.layout_of(tenv.as_query_input(*et)).ok()?;
+                let stride = el.size.bytes() as usize;
+                let mut items = Vec::new();
+                for i in 0..cnt {
+                    items.push(self.decode_const(tenv, bytes, ofs + i * stride, *et, depth + 1)?);
+                }
+                Some(o(vec![("array", J::A(items))]))
+            }
+            _ => None,
+        }
+    }
+
     fn konst(&mut self, tenv: TypingEnv<'tcx>, root: DefId, c: &mir::ConstOperand<'tcx>) -> J {
         let tcx = self.tcx;
         let cty = c.const_.ty();
@@ -340,7 +415,12 @@ impl<'tcx> Ex<'tcx> {
                                 let sz = layout.size.bytes() as usize;
                                 let ofs = off.bytes() as usize;
                                 let a = alloc.inner();
-                                if sz > 0 && sz <= 16 && ofs + sz <= a.len() {
+                                if matches!(inner.kind(), ty::Array(..) | ty::Tuple(..)) && sz > 0 && ofs + sz <= a.len() {
+                                    let bytes = a.inspect_with_uninit_and_ptr_outside_interpreter(0..a.len());
+                                    if let Some(j) = self.decode_const(tenv, bytes, ofs, *inner, 0) {
+                                        v.push(("ref_const", j));
+                                    }
+                                } else if sz > 0 && sz <= 16 && ofs + sz <= a.len() {
                                     let bytes = a.inspect_with_uninit_and_ptr_outside_interpreter(ofs..ofs + sz);
                                     let mut val: u128 = 0;
                                     for (i, b) in bytes.iter().enumerate() {
